@@ -724,7 +724,10 @@ def t_block():
     facts['jacobian_copies_Js_before_writing'] = jac.find('Js = Js.copy()') != -1 and jac.find('Js = Js.copy()') < jac.find('Js[self.name] = self.M.inv @ Js[self.name]')
     cb = 'blocks/combined_block.py'
     facts['combined_steady_state_forwards_options'] = 'block.steady_state(ss, dissolve=inner_dissolve, **kwargs)' in ast.unparse(find_def(cb, 'CombinedBlock._steady_state'))
-    facts['combined_impulse_nonlinear_forwards'] = 'block.impulse_nonlinear(ss, input_args, outputs & block.outputs, internals, Js, options, ss_initial)' in ast.unparse(find_def(cb, 'CombinedBlock._impulse_nonlinear'))
+    cin = ast.unparse(find_def(cb, 'CombinedBlock._impulse_nonlinear'))
+    # the block's inputs are forwarded either as the plain dict or as an ImpulseDict carrying the horizon (after the repair of D24: a block none of whose inputs is perturbed)
+    facts['combined_impulse_nonlinear_forwards'] = any(f'block.impulse_nonlinear(ss, {a}, outputs & block.outputs, internals, Js, options, ss_initial)' in cin
+                                                       for a in ('input_args', 'ImpulseDict(input_args, T=impulses.T)'))
     facts['combined_impulse_linear_forwards'] = 'block.impulse_linear(ss, input_args, outputs & block.outputs, Js, options)' in ast.unparse(find_def(cb, 'CombinedBlock._impulse_linear'))
     cj = ast.unparse(find_def(cb, 'CombinedBlock._jacobian'))
     facts['combined_jacobian_accumulates'] = all(x in cj for x in ('total_Js = JacobianDict.identity(inputs)', 'for block in self.blocks', 'J = block.jacobian(ss, inputs & block.inputs, outputs & block.outputs, T, Js, options)',
